@@ -134,6 +134,12 @@ C16Checks(e) ==
                     exp == HourStar(DayIdx(J) % 12, HourAscending(T, J), slot)
                 IN Chk("C16.hourStar", << h.at, h.ts, exp >>, h.ts = exp)
                    + Chk("C16.hourStar.lunarTime", << h.at, h.ts2, exp >>, h.ts2 = exp))
+       \* a day asked again later (after the walk passed the year end) has the stars it had
+       + SumSeq(e.again, LAMBDA a :
+           IF a.p # 0 THEN Chk("C16.day.panic", a.d, FALSE)
+           ELSE LET r == e.rows[a.i]
+                IN Chk("C16.same-day-same-stars", << a.d, << a.ds, a.ys, a.ms >>, << r.ds, r.ys, r.ms >> >>,
+                       a.i \in 1..Len(e.rows) /\ r.d = a.d /\ a.ds = r.ds /\ a.ys = r.ys /\ a.ms = r.ms))
 C16Year == IsEv("C16Year") /\ Consume(C16Checks(Trace[l]))
 
 (***************************************************************************)
